@@ -166,7 +166,7 @@ def replay_case(case):
 
 # =============================================================================================== (a) E2
 SEQ_ACTIONS = ['file', 'tree', 'ldang']
-INITS = ['empty', 'orphan-file', 'orphan-empty-file', 'orphan-dir', 'orphan-info', 'both-at-a_1', 'info-a+orphan-a_1', 'files-symlinked', 'td-dotdot']
+INITS = ['empty', 'orphan-file', 'orphan-empty-file', 'orphan-dangling-link', 'orphan-dir', 'orphan-info', 'both-at-a_1', 'info-a+orphan-a_1', 'files-symlinked', 'td-dotdot']
 STORE = '/home/u/.local/share/store'
 
 
@@ -179,6 +179,8 @@ def seq_world(init):
         W.file(TD + '/files/a', 'orphan file payload\n')
     elif init == 'orphan-empty-file':
         W.file(TD + '/files/a', '')          # a zero-length payload is a payload too
+    elif init == 'orphan-dangling-link':
+        W.link(TD + '/files/a', '/media/unplugged/a')          # a trashed symbolic link whose target is gone (and whose info was lost): still somebody's payload
     elif init == 'orphan-dir':
         W.dir(TD + '/files/a').file(TD + '/files/a/keep', 'orphan dir payload\n')
     elif init == 'orphan-info':
